@@ -510,6 +510,38 @@ def Store.probeBatch (H : Hash) (s : Store) (now : Int) (ks : List QKey) : Nat Ã
   let misses := ks.filter (fun k => (s.lookupFailure H now k).isNone)
   (distinctCount (misses.map (s.dedupKey H now)), ks.length - misses.length)
 
+/-! ### admission filters -/
+
+/-- why a failure may be private to one request. -/
+inductive Cause
+  | none | workLimit | attemptLimit | probeLimit | loadShed | maxRecursion | canceled | deadline | other
+deriving DecidableEq, Repr
+
+/-- `middleware.IsRequestLocalResolutionError`. -/
+def Cause.isRequestLocal : Cause â†’ Bool
+  | .workLimit | .attemptLimit | .probeLimit | .loadShed | .maxRecursion | .canceled | .deadline => true
+  | .none | .other => false
+
+/-- what the admission filters read from the request context. -/
+structure Ctx where
+  /-- `contextutil.EffectiveError(ctx) != nil` (cancelled or past its deadline) -/
+  ended : Bool
+  /-- `middleware.IsBestEffortRecursionWork(ctx)` (optional enrichment) -/
+  bestEffort : Bool
+  /-- `middleware.RecursionWorkEnforcementError(ctx) != nil` -/
+  workLimit : Bool
+  /-- the cause passed to `MarkRequestLocalFailureResponse` for exactly this response -/
+  marked : Cause
+deriving DecidableEq, Repr
+
+/-- `cacheableResolutionFailure`. -/
+def cacheableResolutionFailure (c : Ctx) : Bool :=
+  !c.ended && !c.bestEffort && !c.workLimit && !c.marked.isRequestLocal
+
+/-- the SERVFAIL branch of `ResponseWriter.WriteMsg`: record iff cacheable. -/
+def Store.writeBackFailure (H : Hash) (s : Store) (now : Int) (ctx : Ctx) (k : QKey) (wit : Nat) : Store :=
+  if cacheableResolutionFailure ctx then s.recordFailure H now k 1 wit else s
+
 /-! ### the failover route (middleware/failover) -/
 
 /-- what the handler behind the cache (primary path) or a fallback server produced. -/
@@ -554,38 +586,6 @@ def Store.serveViaFailover (H : Hash) (s : Store) (now : Int) (k : QKey) (primar
   match o.cls with
   | .servfail => s.writeBackFailure H now âŸ¨false, false, false, o.markedâŸ© k 0
   | _ => s.writeBackAnswer H now k false
-
-/-! ### admission filters -/
-
-/-- why a failure may be private to one request. -/
-inductive Cause
-  | none | workLimit | attemptLimit | probeLimit | loadShed | maxRecursion | canceled | deadline | other
-deriving DecidableEq, Repr
-
-/-- `middleware.IsRequestLocalResolutionError`. -/
-def Cause.isRequestLocal : Cause â†’ Bool
-  | .workLimit | .attemptLimit | .probeLimit | .loadShed | .maxRecursion | .canceled | .deadline => true
-  | .none | .other => false
-
-/-- what the admission filters read from the request context. -/
-structure Ctx where
-  /-- `contextutil.EffectiveError(ctx) != nil` (cancelled or past its deadline) -/
-  ended : Bool
-  /-- `middleware.IsBestEffortRecursionWork(ctx)` (optional enrichment) -/
-  bestEffort : Bool
-  /-- `middleware.RecursionWorkEnforcementError(ctx) != nil` -/
-  workLimit : Bool
-  /-- the cause passed to `MarkRequestLocalFailureResponse` for exactly this response -/
-  marked : Cause
-deriving DecidableEq, Repr
-
-/-- `cacheableResolutionFailure`. -/
-def cacheableResolutionFailure (c : Ctx) : Bool :=
-  !c.ended && !c.bestEffort && !c.workLimit && !c.marked.isRequestLocal
-
-/-- the SERVFAIL branch of `ResponseWriter.WriteMsg`: record iff cacheable. -/
-def Store.writeBackFailure (H : Hash) (s : Store) (now : Int) (ctx : Ctx) (k : QKey) (wit : Nat) : Store :=
-  if cacheableResolutionFailure ctx then s.recordFailure H now k 1 wit else s
 
 /-- an `error` as the resolver classifies it. -/
 structure LErr where
